@@ -23,8 +23,34 @@ fn sign_and_report(ctx: &Arc<c2pa::Context>, b: &mut Builder, fmt: Fmt, asset: &
     let mut d = std::io::Cursor::new(Vec::new());
     b.sign(sdk::make_signer("ed25519").as_ref(), fmt.mime(), &mut std::io::Cursor::new(asset.to_vec()), &mut d)
         .map_err(|e| format!("sign:{}", err_kind(&e)))?;
-    let rep = sdk::read_plain(ctx, fmt.mime(), &d.into_inner()).map_err(|e| format!("read:{e}"))?;
-    Ok(rep.projected())
+    let signed = d.into_inner();
+    let rep = sdk::read_plain(ctx, fmt.mime(), &signed).map_err(|e| format!("read:{e}"))?;
+    let mut v = rep.projected();
+    // the bytes behind every thumbnail reference of the active manifest and its ingredients
+    let mut thumbs = serde_json::Map::new();
+    if let Ok(rd) = c2pa::Reader::from_shared_context(ctx).with_stream(fmt.mime(), std::io::Cursor::new(signed)) {
+        let mut ids: Vec<(String, String)> = Vec::new();
+        if let Some(m) = rep.active_manifest() {
+            if let Some(id) = m.get("thumbnail").and_then(|t| t.get("identifier")).and_then(|i| i.as_str()) {
+                ids.push(("claim".into(), id.to_string()));
+            }
+            for ing in m.get("ingredients").and_then(|i| i.as_array()).cloned().unwrap_or_default() {
+                if let Some(id) = ing.get("thumbnail").and_then(|t| t.get("identifier")).and_then(|i| i.as_str()) {
+                    ids.push((format!("ingredient:{}", ing.get("title").and_then(|t| t.as_str()).unwrap_or("?")), id.to_string()));
+                }
+            }
+        }
+        for (who, id) in ids {
+            let mut o = std::io::Cursor::new(Vec::new());
+            let v = match rd.resource_to_stream(&id, &mut o) {
+                Ok(_) => format!("{:016x}:{}", crate::rng::hash_bytes(o.get_ref()), o.get_ref().len()),
+                Err(e) => format!("unreadable:{}", err_kind(&e)),
+            };
+            thumbs.insert(who, json!(v));
+        }
+    }
+    v["thumbnail_bytes"] = Value::Object(thumbs);
+    Ok(v)
 }
 
 impl Property for C22 {
@@ -33,7 +59,7 @@ impl Property for C22 {
             id: "C22",
             level: "exploration",
             rule: "one evaluation = a chain of 1-3 Builder::to_archive -> Builder::with_archive hops through SimStreams with seeded benign chunking, starting from a builder with a seeded definition (user assertions, 0-2 ingredients one of which is a signed asset), followed by signing the original and the restored builder with the same signer and comparing the read-back reports projected onto per-signing-invariant fields (labels by order, no instance ids / times / hashes); faulted variant: the archive bytes are truncated / torn / flipped on the simulated disk before restoring, and with_archive must either fail or restore a builder whose signed report equals the original's. Non-trivial = restore attempted; distinct = (format, chain length, ingredients, fault)",
-            assumptions: &["thumbnails/resources beyond ingredient manifest data are not in the workload (thumbnails disabled)"],
+            assumptions: &["automatic thumbnail generation stays disabled; half of the runs supply a claim thumbnail and ingredient thumbnails as resources, compared by the bytes the Reader hands back"],
             real: &["Builder::to_archive / with_archive (working-store sign + reload), sign, Reader"],
             stubbed: &["archive streams (SimStream)", "storage of the archive between save and restore"],
             crash_prop: "C10",
@@ -60,15 +86,33 @@ impl Property for C22 {
         let ctx = Arc::new(sdk::make_context(&json!({})));
         let asset = assets::generate(fmt, &mut r);
         let tag = format!("{}:{}ing:{}hops", fmt.name(), n_ing, hops);
+        // half of the runs carry binary resources: a claim thumbnail and ingredient thumbnails
+        let with_thumbs = r.chance(1, 2);
+        let tn = 200 + r.below(3000) as usize;
+        let thumb_bytes = r.bytes(tn);
+        let tag = if with_thumbs { format!("{tag}:thumbs") } else { tag };
+        let mut def = g.def.clone();
+        if with_thumbs {
+            def["thumbnail"] = json!({"format": "image/jpeg", "identifier": "thumb.jpg"});
+        }
         let build = |ctx: &Arc<c2pa::Context>| -> Result<Builder, String> {
-            let mut b = Builder::from_shared_context(ctx).with_definition(g.def.clone()).map_err(|e| err_kind(&e))?;
+            let mut b = Builder::from_shared_context(ctx).with_definition(def.clone()).map_err(|e| err_kind(&e))?;
+            if with_thumbs {
+                b.add_resource("thumb.jpg", std::io::Cursor::new(thumb_bytes.clone())).map_err(|e| format!("add_resource:{}", err_kind(&e)))?;
+            }
             for i in 0..n_ing {
                 let bytes = if i == 0 {
                     sdk::sign_plain(ctx, &sdk::simple_definition("ingredient"), "ed25519", fmt.mime(), &asset)?
                 } else {
                     asset.clone()
                 };
-                b.add_ingredient_from_stream(json!({"title": format!("ing{i}"), "relationship": "componentOf"}).to_string(), fmt.mime(), &mut std::io::Cursor::new(bytes))
+                let mut ij = json!({"title": format!("ing{i}"), "relationship": "componentOf"});
+                if with_thumbs {
+                    let id = format!("ing{i}.jpg");
+                    ij["thumbnail"] = json!({"format": "image/jpeg", "identifier": id});
+                    b.add_resource(&id, std::io::Cursor::new([thumb_bytes.as_slice(), &[i as u8]].concat())).map_err(|e| format!("add_resource:{}", err_kind(&e)))?;
+                }
+                b.add_ingredient_from_stream(ij.to_string(), fmt.mime(), &mut std::io::Cursor::new(bytes))
                     .map_err(|e| format!("add_ing:{}", err_kind(&e)))?;
             }
             Ok(b)
@@ -125,8 +169,36 @@ impl Property for C22 {
                 if got != want {
                     let d = first_diff(&want, &got, "");
                     let cls: String = d.split(':').next().unwrap_or("").split('/').filter(|p| !p.is_empty() && !p.starts_with('<')).take(3).collect::<Vec<_>>().join("/");
+                    // the thumbnail of an ingredient that has a manifest of its own is a class of its own
+                    let cls = if d.contains("/ingredients[") && d.contains("/thumbnail: missing on the right") { "signed-ingredient-thumbnail-dropped".to_string() } else { cls };
                     out.violate(10, &format!("restored-report-differs:{cls}"), "C22 same reported manifest content after restore",
                         json!({"scenario": tag, "first_difference": d}));
+                    if cls == "signed-ingredient-thumbnail-dropped" {
+                        // look past it: what does not depend on that thumbnail must still agree
+                        // (title, format, state, assertions, ingredient titles / relationships,
+                        // the bytes of the claim thumbnail and of unsigned ingredients' thumbnails)
+                        let strip = |v: &Value| -> Value {
+                            let am = v.pointer("/report/active_manifest").and_then(|a| a.as_str()).unwrap_or("");
+                            let m = v.pointer("/report/manifests").and_then(|m| m.get(am)).cloned().unwrap_or(Value::Null);
+                            let ings: Vec<Value> = m.get("ingredients").and_then(|i| i.as_array()).map(|a| a.iter().map(|i| json!({
+                                "title": i.get("title"), "relationship": i.get("relationship"), "signed": i.get("active_manifest").is_some()})).collect()).unwrap_or_default();
+                            let signed_titles: Vec<String> = m.get("ingredients").and_then(|i| i.as_array()).map(|a| a.iter().filter(|i| i.get("active_manifest").is_some())
+                                .filter_map(|i| i.get("title").and_then(|t| t.as_str()).map(|t| format!("ingredient:{t}"))).collect()).unwrap_or_default();
+                            let mut tb = v.get("thumbnail_bytes").and_then(|t| t.as_object()).cloned().unwrap_or_default();
+                            for t in &signed_titles {
+                                tb.remove(t);
+                            }
+                            json!({"state": v.get("state"), "title": m.get("title"), "format": m.get("format"), "assertions": m.get("assertions"),
+                                   "ingredients": ings, "thumbnail_bytes": tb})
+                        };
+                        let (w2, g2) = (strip(&want), strip(&got));
+                        if w2 != g2 {
+                            let d2 = first_diff(&w2, &g2, "");
+                            let cls2: String = d2.split(':').next().unwrap_or("").split('/').filter(|p| !p.is_empty() && !p.starts_with('<')).take(3).collect::<Vec<_>>().join("/");
+                            out.violate(11, &format!("restored-report-differs:{cls2}"), "C22 same reported manifest content after restore",
+                                json!({"scenario": tag, "first_difference": d2, "beyond": "signed-ingredient-thumbnail-dropped"}));
+                        }
+                    }
                 } else {
                     out.probe("restored-report-identical");
                 }
